@@ -23,7 +23,7 @@ Lemma root_facts : forall rp rl n c ch,
   consistent dep os /\ (forall o, In o os -> under [n] (okey o)).
 Proof.
   intros rp rl n c ch Hp os.
-  assert (E : os = ([n], 0, OT) :: flat_map (tops [n] (c_plc_scope c) (c_lim_scope c) 1) ch).
+  assert (E : os = ([n], 0, OT) :: flat_map (tops [n] (c_scope c) (c_scope c) 1) ch).
   { unfold os, entries. fold (tops [] rp rl 0 (Dir n c ch)). rewrite tops_dir by exact Hp. reflexivity. }
   rewrite E. split.
   - constructor. reflexivity.
